@@ -121,6 +121,11 @@ var skeletonFuncs = [][3]string{
 	{"consul/consul.go", "Lease", "Renew"},
 	{"consul/consul.go", "Lease", "Handoff"},
 	{"consul/consul.go", "Lease", "Close"},
+	// write authority across a lost lease (C07)
+	{"store.go", "", "newPrimaryCtx"},
+	{"store.go", "primaryCtx", "Err"},
+	{"rwmutex.go", "RWMutexGuard", "Lock"},
+	{"rwmutex.go", "RWMutexGuard", "RLock"},
 }
 
 // genSkeletons renders, for each listed function, its control skeleton in source order:
